@@ -79,19 +79,20 @@ CheckParse(dl, c) ==
       fin == Run(cfg, orc, c.argv, c.disp)
       e   == Outcome(cfg, fin)
       df  == IF e.miss THEN {} ELSE Diff(cfg, e, c.res)
-      bad == SpecViolations(cfg, orc, c.argv, fin)
-  IN /\ (e.miss => PrintT(<<"UNVERIFIABLE", c.id>>))
-     /\ (fin.phase = "stuck" => PrintT(<<"SPECFAIL", c.id, {"stuck"}>>))
-     /\ (bad # {} => PrintT(<<"SPECFAIL", c.id, bad>>))
-     /\ (df # {} => PrintT(<<"DIFF", c.id, df, e>>))
+      \* blocks enumerated from a family are the very cases GetoptMC explored; random blocks are new inputs
+      bad == IF Trace[dl].sp THEN SpecViolations(cfg, orc, c.argv, fin) ELSE {}
+  IN /\ (e.miss => PrintT(ToJson([k |-> "UNVERIFIABLE", id |-> c.id])))
+     /\ (fin.phase = "stuck" => PrintT(ToJson([k |-> "SPECFAIL", id |-> c.id, bad |-> {"stuck"}])))
+     /\ (bad # {} => PrintT(ToJson([k |-> "SPECFAIL", id |-> c.id, bad |-> bad])))
+     /\ (df # {} => PrintT(ToJson([k |-> "DIFF", id |-> c.id, fields |-> df, exp |-> e])))
 
 CheckComp(dl, c) ==
   LET cfg == Trace[dl].cfg
       orc == Trace[dl].orc
       e   == CompOutcome(cfg, orc, c.argv, c.comp)
       df  == IF e.miss THEN {} ELSE CompDiff(cfg, e, c.res)
-  IN /\ (e.miss => PrintT(<<"UNVERIFIABLE", c.id>>))
-     /\ (df # {} => PrintT(<<"DIFF", c.id, df, e>>))
+  IN /\ (e.miss => PrintT(ToJson([k |-> "UNVERIFIABLE", id |-> c.id])))
+     /\ (df # {} => PrintT(ToJson([k |-> "DIFF", id |-> c.id, fields |-> df, exp |-> e])))
 
 CheckCase(dl, c) == IF c.comp = "" THEN CheckParse(dl, c) ELSE CheckComp(dl, c)
 
